@@ -31,14 +31,16 @@ pub struct C05Cell {
     /// asymmetric variant: nobody is partitioned; node 0 is falsely declared
     /// Down by an injected Down(0) gossip at node 1
     pub asymmetric: bool,
+    /// every member refuted a suspicion before the partition (incarnation > 0)
+    pub bumped: bool,
 }
 
 impl C05Cell {
     pub fn label(&self) -> String {
         if self.asymmetric {
-            format!("n={} asymmetric-false-down phase={} at-event={}", self.n, self.phase, self.start_event)
+            format!("n={} asymmetric-false-down phase={} at-event={} refuted-before={}", self.n, self.phase, self.start_event, self.bumped)
         } else {
-            format!("n={} split={}/{} phase={} partition-at-event={} heal=mutual-down+{}", self.n, self.side_a, self.n - self.side_a, self.phase, self.start_event, self.extra)
+            format!("n={} split={}/{} phase={} partition-at-event={} heal=mutual-down+{} refuted-before={}", self.n, self.side_a, self.n - self.side_a, self.phase, self.start_event, self.extra, self.bumped)
         }
     }
 }
@@ -65,6 +67,15 @@ pub fn run_c05(cell: &C05Cell, devs: &BTreeMap<usize, usize>) -> RunResult {
     }
     let all: Vec<u8> = (0..n as u8).collect();
     let old_ids: Vec<Id> = all.iter().map(|a| *sim.nodes[*a as usize].as_ref().unwrap().identity()).collect();
+    if cell.bumped {
+        // an earlier, long-refuted suspicion: every member's incarnation is
+        // already above 0 when the partition starts
+        for a in &all {
+            sim.call(*a, &Ev::Apply(vec![Member::new(old_ids[*a as usize], 0, State::Suspect)], true));
+        }
+        let until = sim.now + 3 * PERIOD;
+        while sim.step(until).is_some() {}
+    }
     let t_heal;
     if cell.asymmetric {
         // node 1 is told that node 0 is Down
@@ -228,12 +239,16 @@ pub fn c05(tier: &str) -> Report {
                             continue;
                         }
                         let d = if th { usize::from(n <= 4 && ei % 10 == 0) } else { usize::from(n == 3 && si % 4 == 0 && ei < 2) };
-                        cells.push((C05Cell { n, side_a, phase, start_event, extra: *extra, asymmetric: false }, d));
+                        cells.push((C05Cell { n, side_a, phase, start_event, extra: *extra, asymmetric: false, bumped: false }, d));
+                        if si % 2 == 0 && ei < 3 {
+                            cells.push((C05Cell { n, side_a, phase, start_event, extra: *extra, asymmetric: false, bumped: true }, 0));
+                        }
                     }
                 }
             }
             for start_event in (0..(4 * n as u64)).step_by(if th { 1 } else { 4 }) {
-                cells.push((C05Cell { n, side_a: 0, phase, start_event, extra: 0, asymmetric: true }, usize::from(th || n == 3)));
+                cells.push((C05Cell { n, side_a: 0, phase, start_event, extra: 0, asymmetric: true, bumped: false }, usize::from(th || n == 3)));
+                cells.push((C05Cell { n, side_a: 0, phase, start_event, extra: 0, asymmetric: true, bumped: true }, 0));
             }
         }
     }
@@ -303,6 +318,8 @@ pub struct C18World {
     /// knows an (absent) third party as alive, so it can be active on its own
     pub has_other: Vec<bool>,
     pub defunct: Vec<bool>,
+    /// the instance refuted a suspicion earlier (own incarnation 1)
+    pub bumped: Vec<bool>,
 }
 
 fn c18_build(w: &C18World) -> Vec<F> {
@@ -312,6 +329,9 @@ fn c18_build(w: &C18World) -> Vec<F> {
     let mut v = Vec::new();
     for i in 0..k {
         let mut f = new_foca(ident(i), &cfg, FixCodec::default(), TableHandler::new(InvMode::NewerVersion));
+        if w.bumped[i] {
+            run_event(&mut f, &Ev::Apply(vec![Member::new(ident(i), 0, State::Suspect)], true), &[0, 0]);
+        }
         let mut ups = Vec::new();
         for j in 0..k {
             if i == j {
@@ -503,7 +523,9 @@ pub fn c18(tier: &str) -> Report {
                             for ob in [false, true] {
                                 for da in [false, true] {
                                     for db in [false, true] {
-                                        worlds.push(C18World { renew, notify_down, fanout, know: vec![vec![Know::Unknown, ka], vec![kb, Know::Unknown]], has_other: vec![oa, ob], defunct: vec![da, db] });
+                                        for (ba, bb) in [(false, false), (true, false), (true, true)] {
+                                            worlds.push(C18World { renew, notify_down, fanout, know: vec![vec![Know::Unknown, ka], vec![kb, Know::Unknown]], has_other: vec![oa, ob], defunct: vec![da, db], bumped: vec![ba, bb] });
+                                        }
                                     }
                                 }
                             }
@@ -522,7 +544,9 @@ pub fn c18(tier: &str) -> Report {
             loop {
                 let g = |p: usize| tk[idx[p]];
                 for defunct0 in [false, true] {
-                    worlds.push(C18World { renew, notify_down, fanout: 3, know: vec![vec![Know::Unknown, g(0), g(1)], vec![g(2), Know::Unknown, g(3)], vec![g(4), g(5), Know::Unknown]], has_other: vec![false; 3], defunct: vec![defunct0, false, false] });
+                    for bumped in [false, true] {
+                        worlds.push(C18World { renew, notify_down, fanout: 3, know: vec![vec![Know::Unknown, g(0), g(1)], vec![g(2), Know::Unknown, g(3)], vec![g(4), g(5), Know::Unknown]], has_other: vec![false; 3], defunct: vec![defunct0, false, false], bumped: vec![bumped; 3] });
+                    }
                 }
                 let mut p = 0;
                 loop {
